@@ -79,6 +79,9 @@ type Gen struct {
 	useModSvcCalls, useHugeFreq, useModule bool
 	rawResponders bool
 	useExpCont, noRawAddrs bool
+	stretch    bool
+	longLived  int // number of long-lived every-block contexts started so far
+	longLivedRefs map[string]bool
 	promoAnchors []int64 // interesting instants (offset ns) for targeted block times
 	thorough bool
 	didExpCont bool
@@ -153,6 +156,9 @@ func (g *Gen) propose() []Op {
 	}
 	// cap per block; the overflow stays in the mempool
 	maxTx := 12
+	if g.stretch {
+		maxTx = 40
+	}
 	sort.SliceStable(due, func(i, j int) bool { return due[i].order < due[j].order })
 	if len(due) > maxTx {
 		rest = append(rest, due[maxTx:]...)
